@@ -33,20 +33,23 @@ Record spec := mkSp {
   t_due : list gid;      (* owed a step in this frame *)
   t_ran : list gid;      (* had their step in this frame *)
   t_ghost : list (gid * ghost);
+  t_woke : list (gid * Z);   (* whose wait ran out in the running frame, and by how much *)
+  t_risky : list gid;        (* see [sp_action] *)
+  t_cur : option gid;        (* the coroutine whose body is running *)
   ok08 : bool; ok09 : bool; okwf : bool
 }.
 
-Definition sp0 : spec := mkSp [] [] [] [] [] [] [] [] [] true true true.
+Definition sp0 : spec := mkSp [] [] [] [] [] [] [] [] [] [] [] None true true true.
 
 Definition flag08 (b : bool) (t : spec) : spec :=
   mkSp (t_st t) (t_pc t) (t_val t) (t_fin t) (t_order t) (t_norder t) (t_due t) (t_ran t)
-       (t_ghost t) (ok08 t && b) (ok09 t) (okwf t).
+       (t_ghost t) (t_woke t) (t_risky t) (t_cur t) (ok08 t && b) (ok09 t) (okwf t).
 Definition flag09 (b : bool) (t : spec) : spec :=
   mkSp (t_st t) (t_pc t) (t_val t) (t_fin t) (t_order t) (t_norder t) (t_due t) (t_ran t)
-       (t_ghost t) (ok08 t) (ok09 t && b) (okwf t).
+       (t_ghost t) (t_woke t) (t_risky t) (t_cur t) (ok08 t) (ok09 t && b) (okwf t).
 Definition flagwf (b : bool) (t : spec) : spec :=
   mkSp (t_st t) (t_pc t) (t_val t) (t_fin t) (t_order t) (t_norder t) (t_due t) (t_ran t)
-       (t_ghost t) (ok08 t) (ok09 t) (okwf t && b).
+       (t_ghost t) (t_woke t) (t_risky t) (t_cur t) (ok08 t) (ok09 t) (okwf t && b).
 
 Definition sp_state (t : spec) (g : gid) : Z :=
   match alookup g (t_st t) with
@@ -67,7 +70,7 @@ Definition exp_action (t : spec) (a : action) : outcome :=
 (* a successful start: ACTIVE, fresh promise, no longer a ghost *)
 Definition started (t : spec) (g : gid) : spec :=
   mkSp (aset g SAct (t_st t)) (t_pc t) (aset g None (t_val t)) (t_fin t) (t_order t)
-       (t_norder t) (t_due t) (t_ran t) (adel g (t_ghost t)) (ok08 t) (ok09 t) (okwf t).
+       (t_norder t) (t_due t) (t_ran t) (adel g (t_ghost t)) (t_woke t) (t_risky t) (t_cur t) (ok08 t) (ok09 t) (okwf t).
 
 (* a successful kill: TERMINATED at once; owed nothing; remembered as a
    ghost until the frame in which it would next have run *)
@@ -78,7 +81,24 @@ Definition killed (t : spec) (g : gid) : spec :=
             | None => t_ghost t
             end in
   mkSp (adel g (t_st t)) (t_pc t) (t_val t) (t_fin t) (remz g (t_order t))
-       (remz g (t_norder t)) (remz g (t_due t)) (t_ran t) gh (ok08 t) (ok09 t) (okwf t).
+       (remz g (t_norder t)) (remz g (t_due t)) (t_ran t) gh (t_woke t) (t_risky t) (t_cur t) (ok08 t) (ok09 t) (okwf t).
+
+(* the waits of g and of the running coroutine ran out in this frame, with the same deadline *)
+Definition tied_with (cur : option gid) (g : gid) (woke : list (gid * Z)) : bool :=
+  match cur, alookup g woke with
+  | Some x, Some v => negb (x =? g) &&
+                      match alookup x woke with Some v' => v' =? v | None => false end
+  | _, _ => false
+  end.
+
+(* killed by an earlier body, its turn in the running frame has not come yet *)
+Definition not_met (g : gid) (gh : list (gid * ghost)) : bool :=
+  match alookup g gh with Some ZNow => true | _ => false end.
+
+Definition add_risk (b : bool) (g : gid) (t : spec) : spec :=
+  mkSp (t_st t) (t_pc t) (t_val t) (t_fin t) (t_order t) (t_norder t) (t_due t) (t_ran t)
+       (t_ghost t) (t_woke t) (if b then g :: t_risky t else t_risky t) (t_cur t)
+       (ok08 t) (ok09 t) (okwf t).
 
 Definition is_ok (o : outcome) : bool := match o with OOk => true | _ => false end.
 
@@ -89,6 +109,14 @@ Definition sp_action (t : spec) (a : action) (o : outcome) : spec :=
       (* restarting an exhausted generator is outside the domain: its
          resumption executes no code, so nothing of it can be observed *)
       let t := flagwf (negb (memz g (t_fin t))) t in
+      (* also outside: a coroutine whose wait ran out in this frame, killed by
+         an earlier body before its turn, restarted by the body of a coroutine
+         whose wait ran out in this frame with the very same deadline, and
+         then not run in this frame.  (The heap order of equal deadlines is
+         open; in every other case the log shows it, here it would matter
+         without showing.)  Such a restart is remembered in [t_risky] and
+         judged at the end of the frame. *)
+      let t := add_risk (is_ok o && not_met g (t_ghost t) && tied_with (t_cur t) g (t_woke t)) g t in
       if is_ok o then started t g else t
   | AKill g => if is_ok o then killed t g else t
   | AState _ => t
@@ -108,27 +136,27 @@ Definition head_ok (g : gid) (order : list gid) : bool :=
 
 Definition enter (t : spec) (g : gid) (k : Z) : spec :=
   mkSp (t_st t) (aset g (k + 1) (t_pc t)) (t_val t) (t_fin t) (remz g (t_order t))
-       (t_norder t) (remz g (t_due t)) (t_ran t) (t_ghost t) (ok08 t) (ok09 t) (okwf t).
+       (t_norder t) (remz g (t_due t)) (t_ran t) (t_ghost t) (t_woke t) (t_risky t) (Some g) (ok08 t) (ok09 t) (okwf t).
 
 Definition sp_result (t : spec) (g : gid) (res : result) : spec :=
   let ran := g :: t_ran t in
   match res with
   | RReturn v =>
       mkSp (adel g (t_st t)) (t_pc t) (aset g v (t_val t)) (g :: t_fin t) (t_order t)
-           (t_norder t) (t_due t) ran (adel g (t_ghost t)) (ok08 t) (ok09 t) (okwf t)
+           (t_norder t) (t_due t) ran (adel g (t_ghost t)) (t_woke t) (t_risky t) None (ok08 t) (ok09 t) (okwf t)
   | RYield y =>
       match is_pos y with
       | Some z =>
           if is_act t g
           then mkSp (aset g (SPaused z) (t_st t)) (t_pc t) (t_val t) (t_fin t) (t_order t)
-                    (t_norder t) (t_due t) ran (t_ghost t) (ok08 t) (ok09 t) (okwf t)
+                    (t_norder t) (t_due t) ran (t_ghost t) (t_woke t) (t_risky t) None (ok08 t) (ok09 t) (okwf t)
           else mkSp (t_st t) (t_pc t) (t_val t) (t_fin t) (t_order t) (t_norder t) (t_due t) ran
                     (if amem g (t_ghost t) then aset g (ZWait z) (t_ghost t) else t_ghost t)
-                    (ok08 t) (ok09 t) (okwf t)
+                    (t_woke t) (t_risky t) None (ok08 t) (ok09 t) (okwf t)
       | None =>
           mkSp (t_st t) (t_pc t) (t_val t) (t_fin t) (t_order t)
                (if is_act t g then t_norder t ++ [g] else t_norder t)
-               (t_due t) ran (t_ghost t) (ok08 t) (ok09 t) (okwf t)
+               (t_due t) ran (t_ghost t) (t_woke t) (t_risky t) None (ok08 t) (ok09 t) (okwf t)
       end
   end.
 
@@ -162,12 +190,24 @@ Definition tick_gh (dt : Z) (x : gid * ghost) : gid * ghost :=
 Definition act_keys (l : list (gid * status)) : list gid :=
   flat_map (fun x => match x with (g, SAct) => [g] | _ => [] end) l.
 
+(* the waits that run out in this frame (of live and of killed waiters),
+   each with the time by which it is overdue: equal values = equal deadlines *)
+Definition woke_st (dt : Z) (l : list (gid * status)) : list (gid * Z) :=
+  flat_map (fun x => match x with
+                     | (g, SPaused r) => if r - dt <=? 0 then [(g, r - dt)] else []
+                     | _ => [] end) l.
+Definition woke_gh (dt : Z) (l : list (gid * ghost)) : list (gid * Z) :=
+  flat_map (fun x => match x with
+                     | (g, ZWait r) => if r - dt <=? 0 then [(g, r - dt)] else []
+                     | _ => [] end) l.
+
 (* start of a frame: time passes for every waiter; those whose wait has run
    out are runnable again; every runnable coroutine is owed a step *)
 Definition tick (dt : Z) (t : spec) : spec :=
   let st' := map (tick_st dt) (t_st t) in
   mkSp st' (t_pc t) (t_val t) (t_fin t) (t_norder t) [] (act_keys st') []
-       (map (tick_gh dt) (t_ghost t)) (ok08 t) (ok09 t) (okwf t).
+       (map (tick_gh dt) (t_ghost t)) (woke_st dt (t_st t) ++ woke_gh dt (t_ghost t)) [] None
+       (ok08 t) (ok09 t) (okwf t).
 
 Definition gh_stays (x : gid * ghost) : bool :=
   match x with
@@ -179,8 +219,10 @@ Definition gh_stays (x : gid * ghost) : bool :=
 Definition frame_end (t : spec) (exc : outcome) : spec :=
   let t := flag08 (match t_due t with [] => true | _ => false end) t in
   let t := flag09 (is_ok exc) t in     (* process never fails *)
+  (* input domain: see [sp_action] *)
+  let t := flagwf (forallb (fun u => memz u (t_ran t)) (t_risky t)) t in
   mkSp (t_st t) (t_pc t) (t_val t) (t_fin t) (t_order t) (t_norder t) (t_due t) (t_ran t)
-       (filter gh_stays (t_ghost t)) (ok08 t) (ok09 t) (okwf t).
+       (filter gh_stays (t_ghost t)) [] [] None (ok08 t) (ok09 t) (okwf t).
 
 Definition bad (t : spec) : spec := flagwf false t.
 
